@@ -361,27 +361,26 @@ func (fs *FS) checkRenameDestination(oldname, newname string, oldInfo hackpadfs.
 		// the root directory can't be moved
 		return hackpadfs.ErrInvalid
 	}
-	if strings.HasPrefix(newname, oldname+"/") {
-		if oldInfo.IsDir() {
-			// a directory can't be moved into itself
-			return hackpadfs.ErrInvalid
-		}
-		return hackpadfs.ErrNotDir
-	}
 	newFile, err := fs.getFile(newname)
 	switch {
 	case err == nil && newFile.Mode().IsDir():
 		return hackpadfs.ErrExist
-	case err == nil && oldInfo.IsDir():
-		return hackpadfs.ErrNotDir
 	case err != nil && !errors.Is(err, hackpadfs.ErrNotExist):
 		return err
 	}
+	newExists := err == nil
 	newParent, err := fs.getFile(path.Dir(newname))
 	if err != nil {
 		return err
 	}
 	if !newParent.Mode().IsDir() {
+		return hackpadfs.ErrNotDir
+	}
+	if strings.HasPrefix(newname, oldname+"/") {
+		// a directory can't be moved into itself
+		return hackpadfs.ErrInvalid
+	}
+	if newExists && oldInfo.IsDir() {
 		return hackpadfs.ErrNotDir
 	}
 	return nil
